@@ -205,6 +205,10 @@ func DrawCorruptMask(t *rapid.T, label string, md protoreflect.MessageDescriptor
 		}
 	}
 	cands = append(cands, cand{"nope", "unknown", false}, cand{"", "empty-path", false}, cand{"nope.deeper", "unknown", false})
+	// the wildcard some APIs read as "every field": not a path of any message type here
+	anyPop := false
+	mr.Range(func(protoreflect.FieldDescriptor, protoreflect.Value) bool { anyPop = true; return false })
+	cands = append(cands, cand{"*", "wildcard", anyPop})
 	// one "path" that is really two valid paths glued together with the separator of the textual form, and other near
 	// misses of valid paths
 	if fields.Len() >= 2 {
@@ -212,6 +216,7 @@ func DrawCorruptMask(t *rapid.T, label string, md protoreflect.MessageDescriptor
 		cands = append(cands,
 			cand{string(a.Name()) + "," + string(b.Name()), "comma-joined", mr.Has(a) || mr.Has(b)},
 			cand{string(a.Name()) + " ", "trailing-space", mr.Has(a)},
+			cand{" " + string(a.Name()), "leading-space", mr.Has(a)},
 			cand{"." + string(a.Name()), "leading-dot", mr.Has(a)},
 			cand{string(a.Name()) + ".", "trailing-dot", mr.Has(a)},
 			cand{strings.ToUpper(string(a.Name())), "upper-case", mr.Has(a)})
